@@ -685,6 +685,7 @@ def rc_design_check(ctx, quick):
                         name="MCReceipts", timeout=900)
     for dev, invs, want in (('{"CloseOnCancel"}', "INVARIANT C06_Receipts_Safe", "C06_Receipts_Safe"),       # send on a closed channel
                             ('{"LeakOnSendError"}', "INVARIANT C06_Receipts_Safe", "C06_Receipts_Safe"),     # entry of a failed send is matched
+                            ('{"RegisterAfterSend"}', "INVARIANT C06_Receipts_Safe", "C06_Receipts_Safe"),   # a receipt overtakes the registration
                             ('{"CloseOnCancel", "LeakOnSendError"}', "INVARIANT C06_Receipts_NoStall", "C06_Receipts_NoStall")):  # serve loop blocked for good
         b = ctx.tlc("MCReceipts", RC_MC % dict(reqs='{"m1", "m2"}', maxenv=5, dev=dev, invs=invs), name="MCReceipts_dev", timeout=600)
         if want not in b.violated:
@@ -796,7 +797,7 @@ def rc_explain(tr, hw):
             return "C06_OwnReceiptOnly", "call %s returned success without a receipt for its id" % ev.get("i")
         return "C06_Outcome", "call %s ended with %s %s" % (ev.get("i"), ev.get("o"), ev.get("text", ""))
     if k == "handled":
-        return "C06_UnclaimedToHandler", "receipt %s was neither reported unhandled exactly once nor taken for a call that was waiting for it" % ev.get("id")
+        return "C06_UnclaimedToHandler", "receipt %s was neither reported unhandled exactly once nor taken for a call that was waiting for it - or it was reported unhandled / dropped although its call was waiting (message on the wire, context alive)" % ev.get("id")
     return "C06", "event %s not allowed here" % json.dumps(ev)
 
 
